@@ -66,3 +66,63 @@ func H_c05_handout() {
 	verif_no_locks_held("request handler returns with no mutex held")
 	verif_witness()
 }
+
+func verifLE32At(b []byte, off int) uint32 {
+	return uint32(b[off]) | uint32(b[off+1])<<8 | uint32(b[off+2])<<16 | uint32(b[off+3])<<24
+}
+
+// H_c04_checkin: a check-in that asks for jobs gets a no-job reply only if nothing is queued:
+// one request carrying the packages [GET_JOB], [GET_JOB, callback], [callback, GET_JOB] or
+// [callback] alone (the callback has an unknown request id), with one task queued or none.
+// Whenever GET_JOB is among the packages and a task is queued the reply hands it out and the
+// queue is drained; otherwise the reply is the no-job task and the queue is untouched.
+func H_c04_checkin() {
+	ts, A, _, _ := agent.VerifStateS()
+	const id = 0x11223344
+	queued := nondet_bool("task-queued")
+	msg := map[string]string{}
+	if queued {
+		job, err := A.TaskPrepare(agent.COMMAND_SLEEP, map[string]any{"TaskID": "0000000a", "Arguments": "5;10"}, &msg, "", ts)
+		verif_assume(err == nil)
+		verif_assume(job != nil)
+		A.AddJobToQueue(*job)
+	}
+	before := len(A.JobQueue)
+	cbBody := verifBE32(verifBE32(nil, nondet_u32("delay")), nondet_u32("jitter"))
+	cb := append(verifBE32(verifBE32(nil, agent.COMMAND_SLEEP), 0x7777), append(verifBE32(nil, uint32(len(cbBody))), cbBody...)...)
+	get := verifBE32(verifBE32(nil, agent.COMMAND_GET_JOB), 0)
+	shape := nondet_choice("packages", 4)
+	var pkgs []byte
+	asked := true
+	switch shape {
+	case 0:
+		pkgs = get
+	case 1:
+		pkgs = append(append([]byte{}, get...), cb...)
+	case 2:
+		pkgs = append(append([]byte{}, cb...), get...)
+	case 3:
+		pkgs = cb
+		asked = false
+	}
+	inner := verifBE32(verifBE32(nil, 0xDEADBEEF), id)
+	inner = append(inner, pkgs...)
+	body := append(verifBE32(nil, uint32(len(inner))), inner...)
+	resp, ok := parseAgentRequest(ts, body, "10.1.2.3")
+	verif_assert(ok, "a check-in of a known agent is answered")
+	out := resp.Bytes()
+	verif_assert(len(out) >= 12, "the reply holds at least one task header")
+	if len(out) >= 12 {
+		cmd := verifLE32At(out, 0)
+		if asked && queued {
+			verif_assert(cmd == agent.COMMAND_SLEEP, "a check-in that asks for jobs while a task is queued is handed that task")
+			verif_assert(verifLE32At(out, 4) == 0xa, "the task handed out is the queued one")
+			verif_assert(len(A.JobQueue) == before-1, "a task handed out leaves the queue")
+		} else {
+			verif_assert(cmd == agent.COMMAND_NOJOB, "no job is handed out when nothing is queued or nothing was asked")
+			verif_assert(len(A.JobQueue) == before, "a no-job reply leaves the queue untouched")
+		}
+	}
+	verif_no_locks_held("request handler returns with no mutex held")
+	verif_witness()
+}
